@@ -43,6 +43,9 @@ enum Fault {
     /// two faults: the given one (in an included file) and a malformed last body line of the root file;
     /// the parse must report whichever comes first in the pasted text
     AndRootTail(Box<Fault>),
+    /// two handled errors: a trigger_error at (file, line) of an included file and one at the last body
+    /// line of the root file; the last-error queries at the end speak of whichever ran last
+    ErrorAndRootTailError(usize, usize),
 }
 
 impl Fault {
@@ -95,7 +98,13 @@ fn file_text(fi: usize, tree: &Tree, fault: &Fault, root: &Path) -> FileText {
     let tag = ["r", "a", "b", "c"][fi];
     let mut lines: Vec<String> = (0..BODY_LINES)
         .map(|n| match n {
+            // a jump to the label on the next line: label positions are counted in the spliced instruction
+            // list, directives included
+            // (in the root file only: an included file may be included twice, and duplicate labels are
+            // another subject)
+            1 if fi == 0 => format!("goto :l_{}", tag),
             1 => String::new(),
+            2 if fi == 0 => format!(":l_{} v_{} = set {}{}", tag, tag, tag, n),
             2 => format!("v_{} = set {}{}", tag, tag, n),
             3 => format!("  # a comment in {}", tag),
             _ => format!("emit {}{}", tag, n),
@@ -124,6 +133,16 @@ fn file_text(fi: usize, tree: &Tree, fault: &Fault, root: &Path) -> FileText {
         };
         lines.insert(at, d);
         dir_line = Some(at);
+    }
+    if fi == 0 && matches!(fault, Fault::ErrorAndRootTailError(_, _)) {
+        let idx = body_index(BODY_LINES - 1, dir_line);
+        lines[idx] = "o2 = trigger_error boom2".to_string();
+    }
+    if let Fault::ErrorAndRootTailError(f, l) = fault {
+        if *f == fi {
+            let idx = body_index(*l, dir_line);
+            lines[idx] = "o = trigger_error boom".to_string();
+        }
     }
     if fi == 0 && matches!(fault, Fault::AndRootTail(_)) {
         let idx = body_index(BODY_LINES - 1, dir_line);
@@ -336,7 +355,20 @@ fn check(rig: &Rig, tree: &Tree, fault: &Fault, dir: &Path) -> Result<u64, (Stri
     if fv != tv {
         return Err(("run:variables-differ".into(), format!("variables from the file {:?}, from the pasted text {:?}", fv, tv)));
     }
-    if let Fault::Error(f, l) = fault {
+    // of two handled errors the later one is the last error: everything below the root's directive runs
+    // before the root's last body line unless the directive is the last line
+    let last_error = match fault {
+        Fault::ErrorAndRootTailError(f, l) => {
+            if tree.specs[0].pos == 2 {
+                Some(Fault::Error(*f, *l))
+            } else {
+                Some(Fault::Error(0, BODY_LINES - 1))
+            }
+        }
+        Fault::Error(f, l) => Some(Fault::Error(*f, *l)),
+        _ => None,
+    };
+    if let Some(Fault::Error(f, l)) = &last_error {
         let line = body_index(*l, texts[*f].dir_line) + 1;
         if fel != Some(line.to_string()) {
             return Err(("error:wrong-line".into(), format!("get_last_error_line {:?}, the failing line is line {} of {}", fel, line, FILES[*f])));
@@ -541,13 +573,16 @@ pub fn worker(w: &mut Worker) {
                                         }
                                     }
                                     for l in [0usize, 2, 4] {
-                                        // the instruction lines (1 is blank, 3 a comment)
+                                        // lines 0, 2 and 4 (1 is blank or a goto, 3 a comment)
                                         faults.push(Fault::Malformed(fi, l));
                                         if fi > 0 && l != 2 {
                                             faults.push(Fault::AndRootTail(Box::new(Fault::Malformed(fi, l))));
                                         }
                                         if l != 2 {
                                             faults.push(Fault::Error(fi, l));
+                                            if fi > 0 {
+                                                faults.push(Fault::ErrorAndRootTailError(fi, l));
+                                            }
                                         }
                                     }
                                 }
@@ -608,6 +643,8 @@ pub fn replay(case: &Value) -> Result<String, String> {
         Fault::Missing(nums[0], nums[1])
     } else if f.starts_with("Malformed") {
         Fault::Malformed(nums[0], nums[1])
+    } else if f.starts_with("ErrorAndRootTailError") {
+        Fault::ErrorAndRootTailError(nums[0], nums[1])
     } else if f.starts_with("Error") {
         Fault::Error(nums[0], nums[1])
     } else {
@@ -625,7 +662,7 @@ pub fn crash_sig(_case: &Value, kind: &str) -> String {
     kind.to_string()
 }
 
-pub const RULE: &str = "include structures: four files r.ds, d1/a.ds, d1/d2/b.ds, c.ds; every assignment of an include directive (none / one file / two files / the same file twice, listed in one directive, at the first, middle or last line) to each file such that a file only includes files later in the order (two orders: descending into and climbing out of the nested directories), unreachable files normalised away, x path style {./relative, plain relative, absolute}. Faults (on every n-th structure): each include edge pointing to a missing file; a malformed line at every (reachable file, line); a trigger_error at every (reachable file, line); pairs of faults (a missing edge or a malformed line in an included file together with a malformed last line of the root file: the one that comes first in the pasted text must be reported). Oracle: parse_file(root) minus directive instructions equals parse_text of the recursively pasted text; every instruction carries the file it came from (compared as canonical paths) and its line in that file; running the file and the pasted text gives the same emit trace and variables; a missing file fails the parse with ErrorReadingFile naming that file; a malformed line fails with its kind, its own line and its own file; get_last_error_line/_source name the included file and line. Scale cases: a chain of 12/40 (thorough 150) files each including the next across two directories, a chain through files whose names differ only in letter case, one directive listing 12/100 (thorough 1000) files, an included file of 5000 (thorough 200000) lines: instruction order, file and line of every instruction";
+pub const RULE: &str = "include structures: four files r.ds, d1/a.ds, d1/d2/b.ds, c.ds; every assignment of an include directive (none / one file / two files / the same file twice, listed in one directive, at the first, middle or last line) to each file such that a file only includes files later in the order (two orders: descending into and climbing out of the nested directories), unreachable files normalised away, x path style {./relative, plain relative, absolute}. Faults (on every n-th structure): each include edge pointing to a missing file; a malformed line at every (reachable file, line); a trigger_error at every (reachable file, line); two handled errors in different files (the later one is the last error: its line and its file); pairs of faults (a missing edge or a malformed line in an included file together with a malformed last line of the root file: the one that comes first in the pasted text must be reported). Oracle: parse_file(root) minus directive instructions equals parse_text of the recursively pasted text; every instruction carries the file it came from (compared as canonical paths) and its line in that file; running the file and the pasted text gives the same emit trace and variables; a missing file fails the parse with ErrorReadingFile naming that file; a malformed line fails with its kind, its own line and its own file; get_last_error_line/_source name the included file and line. Scale cases: a chain of 12/40 (thorough 150) files each including the next across two directories, a chain through files whose names differ only in letter case, one directive listing 12/100 (thorough 1000) files, an included file of 5000 (thorough 200000) lines: instruction order, file and line of every instruction";
 pub const ASSUMPTIONS: &[&str] = &["cyclic includes are outside the property (C07 probes them)", "the scratch directory is on a local file system without symlinks"];
 pub const EXHAUSTIVE: bool = true;
 pub const WALL_CAP_S: (u64, u64) = (55, 1500);
